@@ -89,8 +89,35 @@ def stream_of(e, f, prog, depth=0):
     return None
 
 
+def generator_stream(h, prog, depth=0):
+    """a generator helper `for a, b, ... in <stream of p>: yield a, b`: the (type, text) projection of the stream"""
+    p = h.params()[0]
+    yields = [y for y in ast.walk(h.node) if isinstance(y, (ast.Yield, ast.YieldFrom))]
+    if not yields:
+        return None
+    loops = [n for n in ast.walk(h.node) if isinstance(n, ast.For)]
+    if len(loops) != 1 or len(yields) != 1 or not isinstance(yields[0], ast.Yield):
+        return None
+    st = stream_of(loops[0].iter, h, prog, depth + 1)
+    tv = target_names(loops[0].target)
+    y = yields[0].value
+    if st is None or st.pairs or st.src not in (p, '?') or not isinstance(y, ast.Tuple) or len(y.elts) != 2 or len(tv) < 2 or \
+            [unparse(x) for x in y.elts] != tv[:2]:
+        return None
+    # the yield is unconditional in the loop
+    par = getattr(yields[0], '_parent', None)
+    while par is not None and par is not loops[0]:
+        if isinstance(par, (ast.If, ast.Try, ast.While)):
+            return None
+        par = getattr(par, '_parent', None)
+    return Stream(p, True, st.impure)
+
+
 def helper_stream(h, prog, depth=0):
     """summary of a module-level helper whose every return is the token stream of its first parameter"""
+    gs = generator_stream(h, prog, depth)
+    if gs is not None:
+        return gs
     p = h.params()[0]
     rets = [r.value for r in ast.walk(h.node) if isinstance(r, ast.Return)]
     if not rets or any(r is None for r in rets):
@@ -223,7 +250,8 @@ def token_sites(f, prog):
                             if id(test) in inside:
                                 for txt, val, e in atomic_facts(test, outcome):
                                     facts.append((_norm(e, tn), val))
-                        site.emissions.append((_norm(c.args[0], tn), facts, c.lineno))
+                        for em_, fx_ in expand_emission(c.args[0], facts, n, g, inside, tn):
+                            site.emissions.append((em_, fx_, c.lineno))
                         site.collector = c.func.value.id
                         emit_nodes.append(node)
             first = [b for b, lab in g.succ[hdr.id] if lab is True]
@@ -266,6 +294,53 @@ def token_sites(f, prog):
                 site.collector = par.targets[0].id
             out.append(site)
     return out
+
+
+def expand_emission(value, facts, loop, g, inside, tn, depth=0):
+    """[(normalised emitted expression, facts)]: conditional expressions are split into their alternatives; a local name in
+    the emitted pair is replaced by each of its definitions in the loop (under the facts of that definition) - except
+    definitions ruled out by an identity test of the emission (`x is not SENTINEL` excludes `x = SENTINEL`)"""
+    if isinstance(value, ast.IfExp):
+        out = []
+        out += expand_emission(value.body, facts + [(_norm(x, tn), v) for _, v, x in atomic_facts(value.test, True)], loop, g, inside, tn, depth)
+        out += expand_emission(value.orelse, facts + [(_norm(x, tn), v) for _, v, x in atomic_facts(value.test, False)], loop, g, inside, tn, depth)
+        return out
+    if depth < 3 and isinstance(value, ast.Tuple) and len(value.elts) == 2 and isinstance(value.elts[1], ast.Name):
+        nm = value.elts[1].id
+        defs = [nd for nd in g.stmt_nodes() if nd.kind == 'stmt' and isinstance(nd.ast, ast.Assign) and loop in nd.loops and
+                len(nd.ast.targets) == 1 and isinstance(nd.ast.targets[0], ast.Name) and nd.ast.targets[0].id == nm]
+        if defs and nm not in (tn.typevar, tn.valvar):
+            # sentinels excluded by the emission's own facts
+            excluded = set()
+            for e, v in facts:
+                if isinstance(e, ast.Compare) and len(e.ops) == 1 and isinstance(e.ops[0], ast.Is) and isinstance(e.left, ast.Name) \
+                        and e.left.id == nm and isinstance(e.comparators[0], ast.Name) and v is False:
+                    excluded.add(e.comparators[0].id)
+            out = []
+            for d in defs:
+                dv = d.ast.value
+                alts = []
+                dfacts = []
+                for test, outcome in g.conditions_at(d):
+                    if id(test) in inside:
+                        for _, v, x in atomic_facts(test, outcome):
+                            dfacts.append((_norm(x, tn), v))
+
+                def alt(e_, fx_):
+                    if isinstance(e_, ast.IfExp):
+                        alt(e_.body, fx_ + [(_norm(x, tn), v) for _, v, x in atomic_facts(e_.test, True)])
+                        alt(e_.orelse, fx_ + [(_norm(x, tn), v) for _, v, x in atomic_facts(e_.test, False)])
+                    else:
+                        alts.append((e_, fx_))
+                alt(dv, dfacts)
+                for e_, fx_ in alts:
+                    if isinstance(e_, ast.Name) and e_.id in excluded:
+                        continue
+                    new = ast.Tuple(elts=[value.elts[0], e_], ctx=ast.Load())
+                    out.append((_norm(new, tn), [f_ for f_ in facts if not (isinstance(f_[0], ast.Compare) and isinstance(f_[0].ops[0], ast.Is))] + fx_))
+            if out:
+                return out
+    return [(_norm(value, tn), facts)]
 
 
 def is_name_fact(e, val):
@@ -320,9 +395,14 @@ def run(prog, check):
     check.explanation = EXPLANATION
     check.not_decided = 'value equality of the renamed expression after untokenize (spacing / literal forms)'
     check.assumptions = ['tokenize yields every identifier occurrence as one NAME token']
-    mod_fns = [f for f in prog.all_functions() if f.cls is None and '/deprecated/' not in f.module.rel]
+    from ..inline import flatten, judged_at_callers
+    raw_fns = [f for f in prog.all_functions() if f.cls is None and '/deprecated/' not in f.module.rel]
+    at_callers = judged_at_callers(prog, raw_fns)
+    mod_fns = [flatten(prog, f) for f in raw_fns if f.key not in at_callers]
     sites = {}
     for f in mod_fns:
+        if f.params() and generator_stream(f, prog) is not None:
+            continue            # a helper that merely projects the token stream
         ss = token_sites(f, prog)
         if ss:
             sites[f.key] = (f, ss)
